@@ -8,6 +8,8 @@ again as real subprocesses (python -m cvss.cvss_calculator) for the true exit st
 
 import itertools
 import os
+import time
+import re
 import subprocess
 import sys
 
@@ -235,6 +237,95 @@ def sub_run(args, stdin_text):
             "err": err.decode("utf-8", "replace")}
 
 
+ANSI = re.compile("\x1b\\[[0-9;]*[A-Za-z]")
+
+
+def pty_run(args, typed):
+    """The calculator as a real process whose stdin, stdout and stderr are a terminal (what a user
+    at a shell has): `typed` is written to the terminal up front, echo off. Returns the same dict
+    as sub_run, the terminal's output with CR LF folded and colour sequences removed."""
+    import pty
+    import select
+    import termios
+    env = dict(os.environ)
+    env["PYTHONPATH"] = core.REPO
+    env["PYTHONDONTWRITEBYTECODE"] = "1"
+    env["TERM"] = "xterm"
+    master, slave = pty.openpty()
+    attrs = termios.tcgetattr(slave)
+    attrs[3] &= ~termios.ECHO
+    termios.tcsetattr(slave, termios.TCSANOW, attrs)
+    p = subprocess.Popen([sys.executable, "-m", "cvss.cvss_calculator"] + args, stdin=slave, stdout=slave,
+                         stderr=slave, env=env, cwd="/", close_fds=True)
+    os.close(slave)
+    os.write(master, typed.encode("utf-8"))
+    chunks = []
+    deadline = time.time() + 30
+    while time.time() < deadline:
+        r, _, _ = select.select([master], [], [], 0.5)
+        if r:
+            try:
+                b = os.read(master, 65536)
+            except OSError:
+                break
+            if not b:
+                break
+            chunks.append(b)
+        elif p.poll() is not None:
+            break
+    try:
+        p.wait(timeout=max(1, deadline - time.time()))
+    except subprocess.TimeoutExpired:
+        p.kill()
+        p.wait()
+        os.close(master)
+        return {"status": None, "exc": "the process did not end within 30 s on a terminal", "out": "", "err": ""}
+    os.close(master)
+    out = b"".join(chunks).decode("utf-8", "replace").replace("\r\n", "\n")
+    return {"status": p.returncode, "exc": None, "out": ANSI.sub("", out), "err": "", "raw": out}
+
+
+def _pty_task(t):
+    """Terminal runs: a vector on the command line; a complete interactive session answering every
+    question with the metric's first legal value; end of input (Ctrl-D) after two answers."""
+    acc = sweep.new_acc()
+    for args, vec in t:
+        acc["n"] += 1
+        acc["calls"] += 1
+        acc["cmp"] += 1
+        fam = cli.selected(args)[0][1]
+        allm = "-a" in args
+        if vec == "<session>":
+            ms = dialogue.expected_metrics(fam, allm)
+            vector = T.PREFIX[fam] + "/".join("%s:%s" % (m, T.METRICS[fam][m][0]) for m in ms)
+            # the answers are keyed by position here: typed up front, the statement's question
+            # order (each metric once) is C16's business and is checked there
+            res = pty_run(args, "".join(T.METRICS[fam][m][0] + "\n" for m in ms))
+            why = cli.basic(res)
+            if not why:
+                kind, view = cli.api_view(cli.selected(args)[0][0], vector)
+                tail = res["out"]
+                cut = max(tail.rfind(lbl) for lbl in ("Base Score",))
+                why = cli.check_report(tail[tail.rfind("\n", 0, cut) + 1:] if cut >= 0 else tail, view, "-j" in args) \
+                    if kind == "ok" else "the vector of first values %r is rejected" % vector
+        elif vec == "<eof>":
+            ms = dialogue.expected_metrics(fam, allm)
+            res = pty_run(args, "".join(T.METRICS[fam][m][0] + "\n" for m in ms[:2]) + "\x04")
+            why = cli.basic(res)
+            if not why and "Base Score" in res["out"]:
+                why = "prints a report although the input ended after two answers"
+        else:
+            res = pty_run(args + ["--vector=" + vec], "")
+            why = cli.judge_vector(args, vec, res, "-j" in args)
+        if why:
+            sweep.bad(acc, {"what": "python -m cvss.cvss_calculator %s %r (on a terminal): %s" % (" ".join(args), vec, why),
+                            "kind": "cli_pty", "input": {"args": args, "vector": vec},
+                            "signature": {"kind": "cli_pty"}})
+        else:
+            acc["nontrivial"] += 1
+    return acc
+
+
 def _empty_task(vfs):
     """-v "" / no vector, any version flags: interactive session, immediate end of input."""
     empty = sweep.new_acc()
@@ -293,7 +384,17 @@ def run(ctx, res):
                 sub.append((vf + of, v))
             sub.append((vf + of, None))
     accs_s = core.pool_map(_sub_task, [sub[i::32] for i in range(32)])
-    tot = sweep.merge(accs + accs_i + accs_s)
+    # the same program on a terminal (stdin, stdout, stderr are a pty)
+    term = []
+    for vf in VERSION_FLAGS[:4]:
+        for of in [[], ["-n"], ["-j"], ["-a", "-n"], ["-a", "-j"]]:
+            term.append((vf + of, "<session>"))
+            term.append((vf + of, "<eof>"))
+            for v in [VALID[cli.selected(vf)[0][1]][0], "x"] + (vset[::7] if ctx.thorough else []):
+                term.append((vf + of, v))
+    accs_t = core.pool_map(_pty_task, [term[i::16] for i in range(16)])
+    res.coverage["terminal_runs"] = sum(a["n"] for a in accs_t)
+    tot = sweep.merge(accs + accs_i + accs_s + accs_t)
     for k in ("n", "calls", "cmp", "nontrivial", "nbad"):
         tot[k] += empty[k]
     tot["bad"] += empty["bad"]
@@ -334,6 +435,9 @@ def replay(case):
         why, res = judge_interactive(i["vflag"], i["oflags"], tuple(sc) if isinstance(sc, list) else sc)
     elif case["kind"] == "cli_empty":
         why = cli.basic(cli.run_main(i["argv"], ""))
+    elif case["kind"] == "cli_pty":
+        acc = _pty_task([(i["args"], i["vector"])])
+        why = acc["bad"][0]["what"] if acc["bad"] else None
     else:
         if i["vector"] is None:
             why = cli.basic(sub_run(i["args"], ""))
